@@ -285,10 +285,32 @@ def run_native_unit(unit, prop, rundir):
     return res
 
 
+def run_static_unit(unit, prop, rundir):
+    """kind=static: a supporting static fact computed by a script under lib/ from /repo's current sources (e.g. the list of
+    allocating functions vs. the functions the units cover).  It proves nothing about behaviour: 'OK n=<items>' lets the
+    check go on, anything else makes the property UNDECIDED (never a violation)."""
+    t0 = time.time()
+    res = {"id": unit["id"], "unit": unit["id"], "enforce": None, "replaced": [], "bound": unit.get("bound"), "status": "undecided", "reason": None,
+           "obligations": 1, "discharged": 0, "canaries_required": 0, "canaries_fired": 0, "failed": [], "backend": "static scan (python)",
+           "solver_s": None, "loops": [], "source_sha256": {}, "functions": [], "samples": [], "named": 0}
+    script = os.path.join(VERIF, "lib", unit["script"])
+    rc, out, dt = run([sys.executable, script], unit.get("timeout", 120), mem_gb=4)
+    m = re.search(r"OK n=(\d+)", out or "")
+    if rc == 0 and m:
+        res.update(status="holds", discharged=1, named=1, samples=[(unit["id"], "static fact over %s items: %s" % (m.group(1), unit.get("what", "")))])
+    else:
+        res["reason"] = "static fact does not hold: " + " | ".join((out or "").strip().splitlines()[-3:])[-400:]
+    res["checker_cmd"] = "python3 lib/%s" % unit["script"]
+    res["wall_s"] = round(time.time() - t0, 2)
+    return res
+
+
 def run_unit(unit, prop, tier, cfg, rundir, extra_defs=(), tag=""):
     """returns a result dict; never raises"""
     if unit.get("kind") == "native":
         return run_native_unit(unit, prop, rundir)
+    if unit.get("kind") == "static":
+        return run_static_unit(unit, prop, rundir)
     t0 = time.time()
     uid = unit["id"] + (("@" + tag) if tag else "")
     if tag.startswith("kf-"):
@@ -602,7 +624,7 @@ def scan_trusted(prop, units):
         stack = [h]
         while stack:
             f = stack.pop()
-            if f in seen or not os.path.exists(f):
+            if f in seen or not os.path.isfile(f):
                 continue
             seen.add(f)
             with open(f, errors="replace") as fh:
